@@ -278,6 +278,12 @@ class Cutter(ast.NodeTransformer):
             return ast.copy_location(ast.Call(ast.Attribute(ast.Name("__pv", ast.Load()), "new_dict", ast.Load()), [], []), node)
         return node
 
+    def visit_Set(self, node):
+        node = self.generic_visit(node)
+        if self.rewrite_literals:
+            return ast.copy_location(ast.Call(ast.Attribute(ast.Name("__pv", ast.Load()), "new_set", ast.Load()), [ast.List(list(node.elts), ast.Load())], []), node)
+        return node
+
     def visit_List(self, node):
         node = self.generic_visit(node)
         if self.rewrite_literals and not node.elts and isinstance(node.ctx, ast.Load):
